@@ -1,0 +1,17 @@
+//go:build !verif
+
+// Package verifhook provides observation points for the external verification
+// harness.  Without the build tag "verif" every function is empty.
+package verifhook
+
+// Func is the type of the installed hook.
+type Func func(point string, kv ...any)
+
+// Set does nothing without the build tag.
+func Set(Func) {}
+
+// At does nothing without the build tag.
+func At(string, ...any) {}
+
+// Enabled tells whether hooks are compiled in.
+const Enabled = false
